@@ -1045,6 +1045,21 @@ func (c *Conversation) calcDataKeys(myKeyId, theirKeyId uint32) (slot *keySlot, 
 		}
 	}
 	if slot == nil {
+		// The slots are only a cache: reuse one whose key ids are no
+		// longer current. Such slots can be left behind by data messages
+		// that arrive while an AKE is being repeated, and would otherwise
+		// never be evicted.
+		for i := range c.keySlots {
+			s := &c.keySlots[i]
+			if (s.myKeyId != c.myKeyId && s.myKeyId != c.myKeyId-1) ||
+				(s.theirKeyId != c.theirKeyId && s.theirKeyId != c.theirKeyId-1) {
+				s.used = false
+				slot = s
+				break
+			}
+		}
+	}
+	if slot == nil {
 		return nil, errors.New("otr: internal error: no more key slots")
 	}
 
